@@ -1,6 +1,276 @@
 import BigDec.Model.Roots
-/-! # C11 (theorems under construction) -/
+import BigDec.Proofs.Round
+import Mathlib.Tactic.Ring
+import Mathlib.Tactic.Linarith
+/-! # C11 — cube root is the true root rounded as the context dictates, for both signs
+
+`implCbrt` models the repaired `impl_cbrt_uint_scale`: shift so that the total scale is a multiple
+of three and the integer has at least `3(p+4)` digits, floor cube root (`nth_root(3)`), then an
+inline rounding of the root to `p` digits by `round_pair` on (last kept digit, first dropped digit,
+"everything after is zero AND the root was exact").  The theorems: the bisection really is the
+floor cube root; the inline rounding is the declarative `roundUpM` applied to the *true* root
+(through a virtual half-unit sticky tail); the comparisons that rounding makes agree with the
+comparisons of the real cube root against the kept value and the half-way point; the scale is
+exactly a third; and a negative argument is the mirror image. -/
 namespace BigDec
+open Generated Spec
+
 theorem C11_zero (s : Int) (p : Nat) (m : Mode) : (Dec.mk 0 s).cbrtCtx p m = ⟨0, s⟩ := by
   simp [Dec.cbrtCtx, Dec.isZero]
+
+/-- the bisection keeps `lo³ ≤ n < hi³` and ends with the floor cube root -/
+theorem icbrtLoop_spec (n : Nat) : ∀ (fuel lo hi : Nat), lo < hi → hi - lo ≤ 2 ^ fuel →
+    lo * lo * lo ≤ n → n < hi * hi * hi →
+    icbrtLoop n fuel lo hi * icbrtLoop n fuel lo hi * icbrtLoop n fuel lo hi ≤ n ∧
+    n < (icbrtLoop n fuel lo hi + 1) * (icbrtLoop n fuel lo hi + 1) * (icbrtLoop n fuel lo hi + 1) := by
+  intro fuel
+  induction fuel with
+  | zero =>
+    intro lo hi hlt hw hlo hhi
+    have : hi = lo + 1 := by simp at hw; omega
+    subst this
+    exact ⟨hlo, hhi⟩
+  | succ fuel ih =>
+    intro lo hi hlt hw hlo hhi
+    unfold icbrtLoop
+    by_cases h1 : lo + 1 ≥ hi
+    · rw [if_pos h1]
+      have : hi = lo + 1 := by omega
+      subst this
+      exact ⟨hlo, hhi⟩
+    · rw [if_neg h1]
+      simp only
+      have hpow : 2 ^ (fuel + 1) = 2 * 2 ^ fuel := by rw [Nat.pow_succ]; ring
+      by_cases h2 : (lo + hi) / 2 * ((lo + hi) / 2) * ((lo + hi) / 2) ≤ n
+      · rw [if_pos h2]
+        exact ih _ _ (by omega) (by omega) h2 hhi
+      · rw [if_neg h2]
+        exact ih _ _ (by omega) (by omega) hlo (by omega)
+
+/-- **floor cube root**: `icbrt n` is the integer `r` with `r³ ≤ n < (r+1)³` -/
+theorem C11_icbrt_floor (n : Nat) :
+    icbrt n * icbrt n * icbrt n ≤ n ∧ n < (icbrt n + 1) * (icbrt n + 1) * (icbrt n + 1) := by
+  unfold icbrt
+  apply icbrtLoop_spec
+  · exact Nat.pos_of_ne_zero (by positivity)
+  · simp only [Nat.sub_zero]
+    apply Nat.pow_le_pow_right (by norm_num)
+    have := Nat.div_le_self n.log2 3
+    omega
+  · simp
+  · -- n < 2^(log2 n + 1) ≤ (2^(log2 n / 3 + 1))³
+    have h1 : n < 2 ^ (n.log2 + 1) := Nat.lt_log2_self
+    have h2 : 2 ^ (n.log2 / 3 + 1) * 2 ^ (n.log2 / 3 + 1) * 2 ^ (n.log2 / 3 + 1) = 2 ^ (3 * (n.log2 / 3 + 1)) := by
+      rw [← Nat.pow_add, ← Nat.pow_add]; congr 1; ring
+    rw [h2]
+    calc n < 2 ^ (n.log2 + 1) := h1
+      _ ≤ 2 ^ (3 * (n.log2 / 3 + 1)) := Nat.pow_le_pow_right (by norm_num) (by omega)
+
+/-- for an integer `H`, the floor cube root `r` of `D` compares with `H` as the real cube root does -/
+theorem cbrt_floor_cmp (D r H : Nat) (h1 : r * r * r ≤ D) (h2 : D < (r + 1) * (r + 1) * (r + 1)) :
+    (r < H ↔ D < H * H * H) := by
+  constructor
+  · intro h
+    have : r + 1 ≤ H := h
+    calc D < (r + 1) * (r + 1) * (r + 1) := h2
+      _ ≤ H * H * H := Nat.mul_le_mul (Nat.mul_le_mul this this) this
+  · intro h
+    by_contra hn
+    have : H ≤ r := by omega
+    have : H * H * H ≤ r * r * r := Nat.mul_le_mul (Nat.mul_le_mul this this) this
+    omega
+
+/-- **the decisions of the rounding are those of the true root.**  Cut the floor root `r` of `D` at
+    `10^t` (`t ≥ 1`): kept part `res`, dropped tail `rem`, plus half a unit of sticky when the root
+    is inexact (`δ`).  The virtual tail `2·rem + δ` out of `2·10^t` is zero exactly when the real root
+    is `res·10^t`, below the half exactly when the real root is below the half-way point `H`, and
+    equal to the half exactly when the real root is `H`. -/
+theorem C11_decisions (D t : Nat) (ht : 1 ≤ t) :
+    let r := icbrt D
+    let res := r / 10 ^ t
+    let rem := r % 10 ^ t
+    let δ := if r * r * r = D then 0 else 1
+    let H := res * 10 ^ t + 5 * 10 ^ (t - 1)
+    (2 * rem + δ = 0 ↔ D = (res * 10 ^ t) * (res * 10 ^ t) * (res * 10 ^ t)) ∧
+    (2 * rem + δ < 10 ^ t ↔ D < H * H * H) ∧
+    (2 * rem + δ = 10 ^ t ↔ D = H * H * H) := by
+  intro r res rem δ H
+  obtain ⟨h1, h2⟩ := C11_icbrt_floor D
+  have hr : r = res * 10 ^ t + rem := by
+    show icbrt D = icbrt D / 10 ^ t * 10 ^ t + icbrt D % 10 ^ t
+    rw [Nat.mul_comm]; exact (Nat.div_add_mod _ _).symm
+  have hp : 10 ^ t = 10 * 10 ^ (t - 1) := by
+    rw [← Nat.pow_succ']; congr 1; omega
+  have hrem : rem < 10 ^ t := Nat.mod_lt _ (by positivity)
+  have hδ : δ = 0 ∨ δ = 1 := by
+    show (if r * r * r = D then 0 else 1) = 0 ∨ (if r * r * r = D then 0 else 1) = 1
+    split <;> simp
+  have hδ0 : δ = 0 ↔ r * r * r = D := by
+    show (if r * r * r = D then 0 else 1) = 0 ↔ _
+    split <;> simp_all
+  refine ⟨?_, ?_, ?_⟩
+  · constructor
+    · intro h
+      have hrem0 : rem = 0 := by omega
+      have hd : δ = 0 := by omega
+      rw [← hδ0.mp hd, hr, hrem0]; ring
+    · intro h
+      -- D is the cube of res·10^t, so the floor root is res·10^t and it is exact
+      have hle : ¬ (r < res * 10 ^ t) := by
+        rw [cbrt_floor_cmp D r _ h1 h2]; omega
+      have hge : ¬ (res * 10 ^ t < r) := by
+        intro hlt
+        have : res * 10 ^ t + 1 ≤ r := hlt
+        have : (res * 10 ^ t + 1) * (res * 10 ^ t + 1) * (res * 10 ^ t + 1) ≤ r * r * r :=
+          Nat.mul_le_mul (Nat.mul_le_mul this this) this
+        have hx : res * 10 ^ t * (res * 10 ^ t) * (res * 10 ^ t) < (res * 10 ^ t + 1) * (res * 10 ^ t + 1) * (res * 10 ^ t + 1) := by
+          nlinarith
+        have h1' : r * r * r ≤ D := h1
+        exact absurd (lt_of_lt_of_le (lt_of_le_of_lt (h ▸ h1') hx) this) (lt_irrefl _)
+      have hreq : r = res * 10 ^ t := by omega
+      have hrem0 : rem = 0 := by omega
+      have : r * r * r = D := by rw [h, hreq]
+      have := hδ0.mpr this
+      omega
+  · rw [← cbrt_floor_cmp D r H h1 h2]
+    show 2 * rem + δ < 10 ^ t ↔ r < res * 10 ^ t + 5 * 10 ^ (t - 1)
+    rw [hr]
+    constructor <;> intro h <;> omega
+  · constructor
+    · intro h
+      have hd : δ = 0 := by omega
+      have hrem5 : rem = 5 * 10 ^ (t - 1) := by omega
+      have : r = H := by show r = res * 10 ^ t + 5 * 10 ^ (t - 1); omega
+      rw [← hδ0.mp hd, this]
+    · intro h
+      have hle : ¬ (r < H) := by
+        rw [cbrt_floor_cmp D r _ h1 h2]; omega
+      have hge : ¬ (H < r) := by
+        intro hlt
+        have : H + 1 ≤ r := hlt
+        have : (H + 1) * (H + 1) * (H + 1) ≤ r * r * r :=
+          Nat.mul_le_mul (Nat.mul_le_mul this this) this
+        have hx : H * H * H < (H + 1) * (H + 1) * (H + 1) := by nlinarith
+        have h1' : r * r * r ≤ D := h1
+        exact absurd (lt_of_lt_of_le (lt_of_le_of_lt (h ▸ h1') hx) this) (lt_irrefl _)
+      have hreq : r = H := by omega
+      have : r * r * r = D := by rw [h, hreq]
+      have hd := hδ0.mpr this
+      have : rem = 5 * 10 ^ (t - 1) := by
+        have : res * 10 ^ t + rem = res * 10 ^ t + 5 * 10 ^ (t - 1) := by rw [← hr]; exact hreq
+        omega
+      omega
+
+/-- the trailing-zeros flag only matters where `needs_trailing_zeros` says so -/
+theorem roundPair_tz_guard : ∀ (m : Mode) (neg : Bool) (l low : Fin 10) (x : Bool),
+    roundPair m neg l low (needsTrailingZeros m low && x) = roundPair m neg l low x := by
+  intro m neg l low x
+  cases m <;> cases neg <;> cases x <;> revert l low <;> decide
+
+/-- **the inline rounding of the code is the declarative rounding of the true root.**  With the root
+    `r` cut at `10^t`, the digit pair handed to `round_pair` and its trailing-zeros flag ("the rest of
+    the tail is zero and the root was exact") give exactly `roundUpM` on the virtual tail
+    `2·rem + δ` of modulus `2·10^t` - whose comparisons are those of the real root (`C11_decisions`). -/
+theorem C11_code_rounding (m : Mode) (neg : Bool) (r t : Nat) (ht : 1 ≤ t) (exact : Bool) :
+    roundPair m neg (r / 10 ^ t % 10) (r % 10 ^ t / 10 ^ (t - 1))
+        (needsTrailingZeros m (r % 10 ^ t / 10 ^ (t - 1)) && (exact && r % 10 ^ t % 10 ^ (t - 1) == 0))
+      = r / 10 ^ t % 10 +
+        (if roundUpM m neg (r / 10 ^ t) (2 * (r % 10 ^ t) + (if exact then 0 else 1)) (2 * 10 ^ t) then 1 else 0) := by
+  have hp : 10 ^ t = 10 * 10 ^ (t - 1) := by
+    rw [← Nat.pow_succ']; congr 1; omega
+  have hP : 0 < 10 ^ (t - 1) := by positivity
+  have hrem : r % 10 ^ t < 10 ^ t := Nat.mod_lt _ (by positivity)
+  have hlow : r % 10 ^ t / 10 ^ (t - 1) < 10 := by
+    rw [Nat.div_lt_iff_lt_mul hP]; omega
+  have hrest : r % 10 ^ t % 10 ^ (t - 1) < 10 ^ (t - 1) := Nat.mod_lt _ hP
+  have hsplit : r % 10 ^ t = r % 10 ^ t / 10 ^ (t - 1) * 10 ^ (t - 1) + r % 10 ^ t % 10 ^ (t - 1) := by
+    rw [Nat.mul_comm]; exact (Nat.div_add_mod _ _).symm
+  -- 1. drop the guard
+  have h1 := roundPair_tz_guard m neg ⟨r / 10 ^ t % 10, Nat.mod_lt _ (by norm_num)⟩ ⟨_, hlow⟩
+    (exact && r % 10 ^ t % 10 ^ (t - 1) == 0)
+  simp only at h1
+  rw [h1]
+  -- 2. the abstract digit-pair lemma with the half-unit sticky tail
+  have h2 := roundPair_tail m neg (r / 10 ^ t) (r % 10 ^ t / 10 ^ (t - 1))
+    (2 * (r % 10 ^ t % 10 ^ (t - 1)) + (if exact then 0 else 1)) (2 * 10 ^ (t - 1)) (by omega)
+    (by cases exact <;> simp <;> omega) hlow
+  have hflag : decide (2 * (r % 10 ^ t % 10 ^ (t - 1)) + (if exact then 0 else 1) = 0)
+      = (exact && r % 10 ^ t % 10 ^ (t - 1) == 0) := by
+    cases exact
+    · simp
+    · by_cases hx : r % 10 ^ t % 10 ^ (t - 1) = 0 <;> simp [hx]
+  rw [hflag] at h2
+  rw [h2]
+  have e1 : r % 10 ^ t / 10 ^ (t - 1) * (2 * 10 ^ (t - 1)) = 2 * (r % 10 ^ t / 10 ^ (t - 1) * 10 ^ (t - 1)) := by ring
+  have e2 : r % 10 ^ t / 10 ^ (t - 1) * (2 * 10 ^ (t - 1)) + (2 * (r % 10 ^ t % 10 ^ (t - 1)) + (if exact then 0 else 1))
+      = 2 * (r % 10 ^ t) + (if exact then 0 else 1) := by
+    rw [e1]; omega
+  have e3 : 10 * (2 * 10 ^ (t - 1)) = 2 * 10 ^ t := by rw [hp]; ring
+  rw [e2, e3]
+
+/-- the total scale handed to the root is a multiple of three, the result scale exactly a third -/
+theorem C11_scale_third (scale : Int) (shift0 : Nat) :
+    let ss : Int := scale + shift0
+    let q := (tdivRem ss 3).1
+    let rem := (tdivRem ss 3).2
+    let newScale0 : Int := if rem > 0 then q + 1 else q
+    let expShift : Nat := if rem > 0 then shift0 + (3 - rem).toNat else if rem < 0 then shift0 + (-rem).toNat else shift0
+    scale + (expShift : Int) = 3 * newScale0 := by
+  intro ss q rem newScale0 expShift
+  have h1 : 3 * q + rem = ss := Int.mul_tdiv_add_tmod ss 3
+  have h2 : rem < 3 := Int.tmod_lt_of_pos ss (by norm_num)
+  have h3 : -3 < rem := Int.lt_tmod_of_pos ss (by norm_num)
+  show scale + ((if rem > 0 then shift0 + (3 - rem).toNat else if rem < 0 then shift0 + (-rem).toNat else shift0 : Nat) : Int)
+    = 3 * (if rem > 0 then q + 1 else q)
+  have hss : ss = scale + shift0 := rfl
+  by_cases hpos : rem > 0
+  · rw [if_pos hpos, if_pos hpos]; push_cast; omega
+  · rw [if_neg hpos, if_neg hpos]
+    by_cases hneg : rem < 0
+    · rw [if_pos hneg]; push_cast; omega
+    · rw [if_neg hneg]; omega
+
+/-- `round_pair` for a negative number is `round_pair` of the mirrored mode for a positive one -/
+theorem roundPair_mirror (m : Mode) (l low : Nat) (tz : Bool) :
+    roundPair m true l low tz = roundPair m.mirror false l low tz := by
+  unfold roundPair
+  cases m <;> simp [Mode.mirror]
+
+theorem needsTrailingZeros_mirror (m : Mode) (d : Nat) : needsTrailingZeros m.mirror d = needsTrailingZeros m d := by
+  cases m <;> rfl
+
+/-- **both signs**: the cube root of a negative number is the negated cube root of its magnitude
+    under the mirrored rounding mode (Floor ↔ Ceiling; the five symmetric modes unchanged) -/
+theorem C11_mirror (n : Nat) (scale : Int) (p : Nat) (m : Mode) :
+    implCbrt n scale p m true = (implCbrt n scale p m.mirror false).neg := by
+  unfold implCbrt Dec.neg
+  simp only [needsTrailingZeros_mirror, roundPair_mirror]
+  simp
+
+/-- through the entry point: `cbrt(-x)` under `m` is `-cbrt(x)` under the mirrored mode -/
+theorem C11_ctx_mirror (d : Dec) (p : Nat) (m : Mode) (h : d.int < 0) :
+    d.cbrtCtx p m = ((Dec.mk (-d.int) d.scale).cbrtCtx p m.mirror).neg ∨ (Dec.mk (-d.int) d.scale).isOne = true := by
+  by_cases h1 : (Dec.mk (-d.int) d.scale).isOne = true
+  · right; exact h1
+  · left
+    have hz : d.isZero = false := by simp [Dec.isZero]; omega
+    have hz' : (Dec.mk (-d.int) d.scale).isZero = false := by simp [Dec.isZero]; omega
+    have ho : d.isOne = false := by
+      unfold Dec.isOne
+      split
+      · have hp : (0:Int) < (10:Int) ^ d.scale.toNat := by positivity
+        simp; omega
+      · rfl
+    have h1' : (Dec.mk (-d.int) d.scale).isOne = false := by simpa using h1
+    unfold Dec.cbrtCtx
+    simp only [hz, ho, hz', h1', Bool.or_false, Bool.false_eq_true, if_false]
+    have hn : (-d.int).natAbs = d.int.natAbs := Int.natAbs_neg _
+    have hneg : decide (d.int < 0) = true := by simpa using h
+    have hpos : decide (-d.int < 0) = false := by simp; omega
+    rw [hneg, hpos, hn]
+    exact C11_mirror _ _ _ _
+
+example : (Dec.mk (-27) 0).cbrtCtx 3 .Floor = ⟨-300, 2⟩ ∧ (Dec.mk 2 0).cbrtCtx 4 .HalfEven = ⟨1260, 3⟩ := by
+  constructor <;> decide +kernel
+
 end BigDec
